@@ -322,10 +322,7 @@ func (rw *rewriter) stmts(list []ast.Stmt, skip bool) []ast.Stmt {
 		case *ast.TypeSwitchStmt:
 			rw.caseBodies(x.Body, skip)
 		case *ast.SelectStmt:
-			for _, c := range x.Body.List {
-				cc := c.(*ast.CommClause)
-				cc.Body = rw.stmts(cc.Body, skip)
-			}
+			rw.commBodies(x, skip)
 		case *ast.LabeledStmt:
 			if inner, ok := x.Stmt.(*ast.ForStmt); ok {
 				rw.block(inner.Body, skip)
@@ -334,10 +331,7 @@ func (rw *rewriter) stmts(list []ast.Stmt, skip bool) []ast.Stmt {
 				rw.block(inner.Body, skip)
 			}
 			if inner, ok := x.Stmt.(*ast.SelectStmt); ok {
-				for _, c := range inner.Body.List {
-					cc := c.(*ast.CommClause)
-					cc.Body = rw.stmts(cc.Body, skip)
-				}
+				rw.commBodies(inner, skip)
 			}
 		}
 		// function literals anywhere inside the statement
@@ -415,6 +409,19 @@ func (rw *rewriter) ifStmt(x *ast.IfStmt, skip bool) {
 	}
 }
 
+// commBodies rewrites the clauses of a select; a goroutine that wakes up in a communication
+// clause parks again before it executes the clause body, so that only the goroutine the
+// scheduler resumed runs repository code.
+func (rw *rewriter) commBodies(x *ast.SelectStmt, skip bool) {
+	for _, c := range x.Body.List {
+		cc := c.(*ast.CommClause)
+		cc.Body = rw.stmts(cc.Body, skip)
+		if rw.p.Yield && !skip && cc.Comm != nil {
+			cc.Body = append([]ast.Stmt{rw.yieldStmt(cc.Colon, "woke")}, cc.Body...)
+		}
+	}
+}
+
 func (rw *rewriter) caseBodies(b *ast.BlockStmt, skip bool) {
 	for _, c := range b.List {
 		cc := c.(*ast.CaseClause)
@@ -445,6 +452,9 @@ func (rw *rewriter) fixImports() {
 				is := s.(*ast.ImportSpec)
 				path, _ := strconv.Unquote(is.Path.Value)
 				name := filepath.Base(path)
+				if len(name) >= 2 && name[0] == 'v' && strings.Trim(name[1:], "0123456789") == "" {
+					name = filepath.Base(filepath.Dir(path)) // module major-version suffix
+				}
 				if is.Name != nil {
 					name = is.Name.Name
 				}
